@@ -18,11 +18,11 @@ without=$(cargo test --offline -p sas-lexer --test $dn 2>&1 | grep -E "^test res
 echo "$id suite-with-patch: $suite"
 echo "$id demo-with-patch:  $with"
 echo "$id demo-without:     $without"
-mkdir -p /verif/seeded/$id
-cp $out/patch.diff /verif/seeded/$id/patch.diff
-cp $demo /verif/seeded/$id/demo.rs
-[ -f $out/demo.md ] && cp $out/demo.md /verif/seeded/$id/demo.md
-python3 - "$id" "$suite" "$with" "$without" <<'PY'
+sd=${2:-$id}; mkdir -p /verif/seeded/$sd
+cp $out/patch.diff /verif/seeded/$sd/patch.diff
+cp $demo /verif/seeded/$sd/demo.rs
+[ -f $out/demo.md ] && cp $out/demo.md /verif/seeded/$sd/demo.md
+python3 - "$id" "$suite" "$with" "$without" "$sd" <<'PY'
 import json,sys
 id,suite,w,wo=sys.argv[1:5]
 try: m=json.load(open('/tmp/mut/%s/OUT/meta.json'%id))
@@ -30,5 +30,5 @@ except Exception: m={}
 m['property']=id
 m['confirmed']={'suite_with_patch':suite,'demo_with_patch':w,'demo_without_patch':wo,
   'how':'in scratch worktree /tmp/mut/%s: git apply patch; cargo test --workspace --offline; cargo test --test <demo>; git apply -R; cargo test --test <demo>'%id}
-json.dump(m,open('/verif/seeded/%s/meta.json'%id,'w'),indent=1,ensure_ascii=False)
+json.dump(m,open('/verif/seeded/%s/meta.json'%(sys.argv[5] if len(sys.argv)>5 else id),'w'),indent=1,ensure_ascii=False)
 PY
